@@ -533,7 +533,79 @@ def judge_case(ctx, res):
         ctx.nontriv({"schema": schema, "ops": wit["ops"]})
 
 
+def big_subtree_case(cid, rng, schema, n_subs):
+    """One crate with more than a thousand descendants (flat, nested, and a binary tree below one of them) is removed in one call:
+    afterwards the crate and every descendant must be gone from every query, everything else must still be there, and no
+    surviving crate may name a removed one as its parent.  (1000 is where id lists stop fitting one statement's parameters.)"""
+    ops = [{"op": "create_temporary", "schema": schema}, {"op": "set_budget", "vdbe": 4 * 10 ** 10},
+           {"op": "create_root_crate", "name": FO.hx("keep"), "as": "k0"}, {"op": "create_sub_crate", "c": "k0", "name": FO.hx("kept child"), "as": "k1"},
+           {"op": "create_root_crate", "name": FO.hx("doomed"), "as": "R"}]
+    subs = ["R"]
+    for k in range(n_subs):
+        h = "s%d" % k
+        if k % 3 == 0:
+            p = "R"
+        elif k % 3 == 1:
+            p = subs[(len(subs) - 1) // 2]       # heap-shaped tree
+        else:
+            p = rng.choice(subs[-40:])
+        ops.append({"op": "create_sub_crate", "c": p, "name": FO.hx("n%04d" % k), "as": h})
+        subs.append(h)
+    ops.append({"op": "create_root_crate", "name": FO.hx("later"), "as": "k2"})
+    tail = len(ops)
+    ops += [{"op": "remove_crate", "c": "R"}, {"op": "db_query", "q": "crates"}, {"op": "db_query", "q": "root_crates"},
+            {"op": "crate_query", "c": "k0", "q": "children"}, {"op": "crate_query", "c": "k0", "q": "descendants"},
+            {"op": "crate_query", "c": "k1", "q": "parent"},
+            {"op": "db_query", "q": "crates_by_name", "name": FO.hx("n0001")}, {"op": "db_query", "q": "root_crate_by_name", "name": FO.hx("doomed")},
+            {"op": "create_root_crate", "name": FO.hx("doomed"), "as": "R2"}, {"op": "db_query", "q": "crates"}]
+    return {"id": cid, "schema": schema, "ops": ops, "_big": {"n": n_subs, "tail": tail}, "no_tz": True, "no_disk": True}
+
+
+def judge_big(ctx, res):
+    case = res.case
+    schema, fam, n = case["schema"], family(case["schema"]), case["_big"]["n"]
+    ops, tail = case["ops"], case["_big"]["tail"]
+    wit = {"schema": schema, "big_subtree": n, "ops": ops[:6] + ops[tail:]}
+    ctx.count()
+    ctx.bump_in("big_subtree_removals", str(n))
+    if res.crash:
+        c = res.crash
+        ctx.violation(f"op-did-not-complete {fam} big-subtree {c.get('op')} {c['kind']}", f"{schema}: {c.get('op')} around a subtree of {n} crates did not complete: {c['kind']}", wit)
+        return
+    ev = res.events
+    bad = [k for k, e in enumerate(ev) if "exc" in e]
+    if bad:
+        ctx.violation(f"bulk-op-throws {fam} {ops[bad[0]]['op']} big-subtree", f"{schema}: {ops[bad[0]]['op']} throws {ev[bad[0]]['exc']['type']} around a subtree of {n} crates", wit)
+        return
+    ids = {o["as"]: ev[k]["ret"] for k, o in enumerate(ops) if "as" in o}
+    keep = {ids["k0"], ids["k1"], ids["k2"]}
+    ctx.nontriv({"schema": schema, "big": n})
+    t = tail
+    checks = [(t + 1, sorted(keep), "crates()"), (t + 2, sorted({ids["k0"], ids["k2"]}), "root_crates()"), (t + 3, [ids["k1"]], "children(keep)"),
+              (t + 4, [ids["k1"]], "descendants(keep)"), (t + 5, ids["k0"], "parent(kept child)"), (t + 6, [], "crates_by_name(a removed name)"),
+              (t + 7, None, "root_crate_by_name(the removed root)"), (t + 9, sorted(keep | {ids["R2"]}), "crates() after re-creating the root name")]
+    for k, want, what in checks:
+        got = ev[k]["ret"]
+        if isinstance(want, list):
+            got = sorted(got)
+        if got != want:
+            extra = len(set(got) - set(want)) if isinstance(want, list) else 0
+            ctx.violation(f"removed-subtree-survives {fam} {what.split('(')[0]}",
+                          f"{schema}: after remove_crate of a crate with {n} descendants, {what} = {str(got)[:120]} ({extra} unexpected) instead of {str(want)[:80]}", wit)
+            return
+
+
 def run(ctx):
+    bigs = []
+    for i, schema in enumerate(ALL_SCHEMAS):
+        if ctx.tier == "quick":
+            nb = 1050 if (i + ctx.seed) % 2 == 0 or schema == "2.21.2" else 300
+        else:
+            nb = ctx.rng.choice([1050, 2100, 3300])
+        bigs.append(big_subtree_case("big%d" % i, ctx.rng, schema, nb))
+    runner.run_cases(bigs, cfg="plain", on_result=lambda r: judge_big(ctx, r), stall_timeout=900)
+    if not ctx.extra.get("big_subtree_removals"):
+        ctx.fail_harness("the big-subtree cases judged nothing")
     cases = []
     n = 0
     per = 40 if ctx.tier == "quick" else 1200
@@ -593,6 +665,10 @@ def run(ctx):
 
 def replay(ctx, doc):
     r = doc["replay"]
+    if r.get("big_subtree"):
+        c = big_subtree_case("replay", ctx.rng, r["schema"], r["big_subtree"])
+        judge_big(ctx, runner.run_one(c, cfg="plain", stall_timeout=900))
+        return
     ops = r["ops"]
     metas = []
     for op in ops:
